@@ -20,7 +20,7 @@ from mc.report import Report
 LEVEL = "fault_enumeration"
 RULE = ("configuration grid (sampler x schedule x checkpoint cadence x n_final_samples x preconditioning x seed) x every "
         "user-callable call index k of the reference run (fault = exception raised inside the k-th likelihood/prior call) x "
-        "resume route {bytes, dict, file path}; plus the resume-from-file constructor route with a real zuko flow; thorough "
+        "resume route {bytes, dict (unpickled), the live dict object the callback received - for every crash point -, file path}; plus the resume-from-file constructor route with a real zuko flow; thorough "
         "adds a second fault inside every resumed run. One evaluation = one faulted or resumed run of the real sampler; "
         "non-trivial = crash point with at least one checkpoint before it and at least one iteration left to run; "
         "distinct = distinct (config, crash point, route)")
@@ -87,6 +87,16 @@ def run_config(cfg):
             j = len(F.sink) - 1
             last_for_k[k] = j
             rep.case(explorer.digest([cfg, k]), nontrivial=j >= 0 and ck[j][0] < iters)
+            # route "live dict": the dictionary object the callback received, kept by the user in the same
+            # process and used after the fault (its content at resume time depends on where the run died)
+            if j >= 0:
+                case = {"cfg": cfg, "checkpoint_index": j, "iteration": ck[j][0], "route": "live-dict", "crash_points": [k, k]}
+                rl = rh.run(cfg, resume_from=F.live[-1])
+                rep.case(explorer.digest([cfg, k, "live-dict"]), nontrivial=ck[j][0] < iters)
+                if rl.exception is not None:
+                    rep.violation(f"C11/resume-raises/live-dict/{rl.exception[0]}", rl.exception, case)
+                else:
+                    compare(rl, R, rep, "C11/resumed-run-differs/live-dict", case)
         rep.count("crash_points", K)
         rep.count("crash_points_before_first_checkpoint", sum(1 for j in last_for_k.values() if j < 0))
         # resume once per distinct checkpoint and route (the resumed run depends only on the payload)
